@@ -301,6 +301,8 @@ def _closure_signature(fv):
             v = S.num_norm(v)
             if isinstance(v, (int, Fraction, A.Rat)) and not isinstance(v, bool):
                 items.append(f"{k}={A.canon(v)}")
+            elif isinstance(v, (str, bool)):
+                items.append(f"{k}={v!r}")  # e.g. mkNLO(kind, RS): the strings select the raw function
         so = e.self_obj
         if so is not None and id(so) not in seen:
             seen.add(id(so))
@@ -327,7 +329,8 @@ def rsl_key(rsl):
             parts.append(f"{f.finfo.fq}[{a}]" + (f"{{{_short_hash(sig)}}}" if sig else ""))
         else:
             parts.append(repr(f))
-    return "|".join(parts)
+    owner = rsl.attrs.get("_owner")
+    return "|".join(parts) + (f"@{owner}" if owner else "")
 
 
 def _short_hash(txt):
@@ -339,7 +342,15 @@ def _short_hash(txt):
 RSL_REGISTRY = {}
 
 
+def _is_empty_rsl(rsl):
+    return all(rsl.attrs.get(p) is None for p in ("reg", "sing", "loc"))
+
+
 def _convolve_vector(ev, cf, interpolator, convolution_point):
+    if _is_empty_rsl(cf):
+        # conv.convolution of a distribution without any part: no integral, no local term -> exactly (0, 0) (decided in C01.integrand)
+        n = len(interpolator.store["__list__"])
+        return (S.Arr([0] * n), S.Arr([0] * n))
     key = rsl_key(cf)
     RSL_REGISTRY[key] = cf
     n = len(interpolator.store["__list__"])
@@ -399,6 +410,8 @@ def _ad_projectors_factory(ev):
 
 
 def _convolution(ev, rsl, x, pdf_func):
+    if _is_empty_rsl(rsl):
+        return (0, 0)
     key = rsl_key(rsl)
     RSL_REGISTRY[key] = rsl
     j = pdf_func.attrs.get("poly_number")
